@@ -426,3 +426,41 @@ Proof.
   split; [exact (proj1 acyclic_example)|]. split; [exact (proj2 acyclic_example)|]. split; [|exact cyclic_example].
   intros tab st H. apply (settle_terminates_auto 4 tab ex3_mods 3 (proj1 acyclic_example) st 4 H). repeat constructor.
 Qed.
+
+(* ---------- translator unit "pyrtl_lhs": sim/_pyrtl.py _LHSValueCompiler / _StatementCompiler regenerated from the
+   source text (Gen/PyRTLLhsGen.v: the denotation of the emitted Python text; texts are thunks over the `next_*`
+   state) equal the model's assign_rtl / exec_rtl / exec_rtl_list for every environment, target, statement ---------- *)
+From V.Proofs Require GenEqPyrtlLhs.
+From V.Gen Require PyRTLLhsGen.
+Theorem C02_translated_helper_sign v s : PyRTLLhsGen.helper_sign v s = py_sign v s.
+Proof. exact (GenEqPyrtlLhs.gen_helper_sign_eq v s). Qed.
+Print Assumptions C02_translated_helper_sign.
+Theorem C02_translated_lhs_gen curr lhs (arg : env -> Z) nx :
+  PyRTLLhsGen.lhs_gen curr lhs arg nx = assign_rtl curr lhs (arg nx) nx.
+Proof. exact (GenEqPyrtlLhs.gen_lhs_gen_eq curr lhs arg nx). Qed.
+Print Assumptions C02_translated_lhs_gen.
+Theorem C02_translated_stmt_gen curr s nx : PyRTLLhsGen.stmt_gen curr s nx = exec_rtl curr s nx.
+Proof. exact (GenEqPyrtlLhs.gen_stmt_gen_eq curr s nx). Qed.
+Print Assumptions C02_translated_stmt_gen.
+Theorem C02_translated_stmts_gen curr ss nx : PyRTLLhsGen.stmts_gen curr ss nx = exec_rtl_list curr ss nx.
+Proof. exact (GenEqPyrtlLhs.gen_stmts_gen_eq curr ss nx). Qed.
+Print Assumptions C02_translated_stmts_gen.
+(* process skeleton (_FragmentCompiler.__call__, fragments without memories): the statements emitted per driven signal *)
+Theorem C02_translated_comb_init i s init rl curr nx sl :
+  PyRTLLhsGen.comb_init_gen i s init rl curr nx sl = (upd nx i init, sl).
+Proof. exact (GenEqPyrtlLhs.gen_comb_init_eq i s init rl curr nx sl). Qed.
+Print Assumptions C02_translated_comb_init.
+Theorem C02_translated_sync_load i s init rl curr nx sl :
+  PyRTLLhsGen.sync_load_gen i s init rl curr nx sl = (upd nx i (sl i), sl).
+Proof. exact (GenEqPyrtlLhs.gen_sync_load_eq i s init rl curr nx sl). Qed.
+Print Assumptions C02_translated_sync_load.
+Theorem C02_translated_sync_reset i s init rl rstv curr nx sl :
+  PyRTLLhsGen.sync_reset_gen i s init rl rstv curr nx sl
+  = (if negb (Z.land 1 rstv =? 0) && negb rl then upd nx i init else nx, sl).
+Proof. exact (GenEqPyrtlLhs.gen_sync_reset_eq i s init rl rstv curr nx sl). Qed.
+Print Assumptions C02_translated_sync_reset.
+Theorem C02_translated_final_update i s init rl mask curr nx sl :
+  PyRTLLhsGen.final_update_gen i s init rl mask curr nx sl
+  = (nx, upd sl i (slot_update (sl i) (nx i) (update_mask s mask))).
+Proof. exact (GenEqPyrtlLhs.gen_final_update_eq i s init rl mask curr nx sl). Qed.
+Print Assumptions C02_translated_final_update.
